@@ -44,6 +44,8 @@ var filters = []string{
 	"[.spec.replicas, .status.phase]", ".spec.list", "(.metadata.labels // {}) | keys",
 	".spec.replicas", ".status.phase", ".spec.list | length", ".metadata.name", ".status.ready",
 	".spec.nothing",
+	// several outputs (objects with distinct keys): the projection is all of them
+	"{r: .spec.replicas}, {p: .status.phase}", "{app: .metadata.labels.app}, {note: .metadata.annotations.note}, {b: .spec.a.b}",
 }
 
 func genValue(t *rapid.T, label string) any {
@@ -156,6 +158,23 @@ func projection(filter string, o *unstructured.Unstructured) (any, error) {
 	outs, err := kit.JQ(filter, o.Object)
 	if err != nil {
 		return nil, err
+	}
+	if len(outs) > 1 {
+		// outputs are objects with pairwise distinct keys (see the filter pool): their union says the same as the list
+		union := map[string]any{}
+		for _, o := range outs {
+			m, ok := o.(map[string]any)
+			if !ok {
+				return nil, fmt.Errorf("filter %q: output %v of a multi-output filter is not an object", filter, o)
+			}
+			for k, v := range m {
+				if _, dup := union[k]; dup {
+					return nil, fmt.Errorf("filter %q: outputs share the key %q", filter, k)
+				}
+				union[k] = v
+			}
+		}
+		return union, nil
 	}
 	if len(outs) != 1 {
 		return nil, fmt.Errorf("filter %q yields %d outputs", filter, len(outs))
@@ -436,7 +455,7 @@ func runCase(c Case) (ev.Info, error) {
 	return info, failure
 }
 
-const rule = "one informer of a real monitor on a fake cluster, unlocked, driven through OnAdd/OnUpdate/OnDelete with generated per-object histories over a pool of 2-5 generated object states (repeats, changes outside the projection, delete (also delivered as a DeletedFinalStateUnknown tombstone) and re-add, re-delivery of Added for listed objects - also flagged as coming from the informer's own initial list, possibly in a newer state -, resync), executeHookOnEvent all subsets plus default, jqFilter from a pool of object/array/scalar/null-valued single-output expressions or none; oracle: trigger <=> type listed and (Deleted or independently computed projection differs from the last known), and every snapshot shows the latest state. Non-trivial: one object had both a suppressed and a delivered Modified. Distinct = distinct cases."
+const rule = "one informer of a real monitor on a fake cluster, unlocked, driven through OnAdd/OnUpdate/OnDelete with generated per-object histories over a pool of 2-5 generated object states (repeats, changes outside the projection, delete (also delivered as a DeletedFinalStateUnknown tombstone) and re-add, re-delivery of Added for listed objects - also flagged as coming from the informer's own initial list, possibly in a newer state -, resync), executeHookOnEvent all subsets plus default, jqFilter from a pool of object/array/scalar/null-valued single-output expressions, two multi-output expressions (objects with distinct keys) or none; oracle: trigger <=> type listed and (Deleted or independently computed projection differs from the last known), and every snapshot shows the latest state. Non-trivial: one object had both a suppressed and a delivered Modified. Distinct = distinct cases."
 
 func TestInformer(t *testing.T) {
 	ev.Main(t, ev.Spec[Case]{Property: "C08", Part: "informer", Rule: rule, Gen: gen, Run: runCase})
